@@ -235,14 +235,20 @@ package client
 //@ end
 
 //@ func (*Conn).Cap
-//@   property C08
+//@   property C08, C19
 //@   safety C08
 //@   requires conn != nil
 //@   modifies $tr
 //@   maintains sendsOnly($tr, old($trlen), $trlen, conn.out, "CAP")
 //@   ensures [C18,C19] len(capabilities) == 0 ==> $trlen == old($trlen) + 1 && $tr[old($trlen)] == ev("send", conn.out, cutnl("CAP " + subcommmand))
+// a non-empty list goes out as one or more lines, each a run of consecutive names joined by single spaces
+//@   bind res []string := call client.splitArgs 1
+//@   bind cut seq := ghost client.splitArgs 1 cut
+//@   ensures [C19] len(capabilities) > 0 ==> capLines($tr, old($trlen), $trlen, conn.out, subcommmand, capabilities, res, cut)
 //@   loop 0:
 //@     invariant true
+//@     invariant [C19] $trlen == old($trlen) + #i && 0 <= #i && #i <= len(res)
+//@     invariant [C19] forall k int :: 0 <= k && k < #i ==> $tr[old($trlen)+k] == ev("send", conn.out, cutnl("CAP " + subcommmand + " :" + res[k]))
 //@ end
 
 //@ func (*Conn).Privmsgln
@@ -331,12 +337,25 @@ package client
 //@ func splitArgs
 //@   property C19
 //@   safety C19
-//@   modifies elems(result)
-//@   ensures fresh(result) || len(result) == 0
+//@   modifies elems(res)
+//@   results res []string
+//@   ensures len(res) == 0 || fresh(res)
+// the result is args cut into consecutive runs, each joined with single spaces
+//@   ensures [C19] len(cut) == len(res) + 1 && cut[0] == 0 && cut[len(res)] == len(args)
+//@   ensures [C19] forall k int :: 0 <= k && k < len(res) ==> cut[k] < cut[k+1] && cut[k+1] <= len(args) && res[k] == joinsp(args, cut[k], cut[k+1], " ")
 //@   loop 0:
-//@     invariant true
+//@     ghost cut seq := [0]
+//@     invariant 0 <= i && i <= len(args)
+//@     invariant [C19] len(cut) == len(res) + 1 && cut[0] == 0 && cut[len(res)] == i && 0 <= i && i <= len(args) && len(res) >= 0
+//@     invariant (len(res) == 0 && cap(res) == 0) || fresh(res)
+//@     invariant [C19] forall k int :: 0 <= k && k < len(res) ==> cut[k] < cut[k+1] && cut[k+1] <= i && res[k] == joinsp(args, cut[k], cut[k+1], " ")
+//@     step cut := cut ++ [i]
 //@   loop 1:
-//@     invariant true
+//@     invariant 0 < i && i <= len(args)
+//@     invariant [C19] cut[len(res)] < i && i <= len(args) && currArg == joinsp(args, cut[len(res)], i, " ")
+//@     invariant [C19] len(cut) == len(res) + 1 && cut[0] == 0 && 0 <= cut[len(res)] && len(res) >= 0
+//@     invariant (len(res) == 0 && cap(res) == 0) || fresh(res)
+//@     invariant [C19] forall k int :: 0 <= k && k < len(res) ==> cut[k] < cut[k+1] && cut[k+1] <= cut[len(res)] && res[k] == joinsp(args, cut[k], cut[k+1], " ")
 //@ end
 
 // ---------------------------------------------------------------------------
@@ -948,6 +967,8 @@ package client
 // be recovered with the mutex still locked and every later CAP line would
 // block the event loop: they must not panic at all, and must release the lock.
 
+// the capability sets only lock: nothing is sent while they work
+//@ pred noSends(tr trace, from int, to int) := forall k int :: from <= k && k < to ==> tr[k].kind != kindof("send")
 //@ pred capOK(c *capSet) := c != nil && c.caps != nil && held(c.mu) == 0
 
 //@ func (*capSet).Add
@@ -955,19 +976,22 @@ package client
 //@   safety C02
 //@   requires capOK(c)
 //@   modifies entries(c.caps), $held, $tr
+//@   maintains [C19] noSends($tr, old($trlen), $trlen)
 //@   ensures $held === old($held) && c.caps == old(c.caps)
-//@   ensures [C19] forall i int :: 0 <= i && i < len(caps) && !(len(caps[i]) >= 1 && caps[i][0] == '-') ==> has(c.caps, caps[i])
-//@   ensures [C19] (forall i int :: 0 <= i && i < len(caps) ==> !(len(caps[i]) >= 1 && caps[i][0] == '-')) ==>
-//@        (forall i int :: 0 <= i && i < len(caps) ==> c.caps[caps[i]])
-//@        && (forall k int :: has(dom(c.caps), k) && !(exists i int :: 0 <= i && i < len(caps) && sid(caps[i]) == k) ==> old(has(dom(c.caps), k)) && vals(c.caps)[k] == old(vals(c.caps)[k]))
-//@        && (forall k int :: old(has(dom(c.caps), k)) ==> has(dom(c.caps), k))
+// one name: the latest word on that capability wins ("-name" disables it)
+//@   ensures [C19] len(caps) == 1 && minusName(caps[0]) ==> dom(c.caps) === setadd(old(dom(c.caps)), caps[0][1:]) && vals(c.caps) === upd(old(vals(c.caps)), caps[0][1:], false)
+//@   ensures [C19] len(caps) == 1 && !minusName(caps[0]) ==> dom(c.caps) === setadd(old(dom(c.caps)), caps[0]) && vals(c.caps) === upd(old(vals(c.caps)), caps[0], true)
+// plain names: exactly these are added, all enabled, nothing else is touched
+//@   ensures [C19] plainNames(caps) ==> (forall k int :: has(dom(c.caps), k) <==> old(has(dom(c.caps), k)) || has(sidset(caps), k))
+//@        && (forall k int :: vals(c.caps)[k] == (has(sidset(caps), k) ? true : old(vals(c.caps)[k])))
 //@   loop 0:
 //@     invariant held(c.mu) == 1 && $held === upd(old($held), c.mu, 1) && c.caps == old(c.caps) && c.caps != nil
-//@     invariant [C19] forall i int :: 0 <= i && i < #i && !(len(caps[i]) >= 1 && caps[i][0] == '-') ==> has(c.caps, caps[i])
-//@     invariant [C19] (forall i int :: 0 <= i && i < len(caps) ==> !(len(caps[i]) >= 1 && caps[i][0] == '-')) ==>
-//@        (forall i int :: 0 <= i && i < #i ==> c.caps[caps[i]])
-//@        && (forall k int :: has(dom(c.caps), k) && !(exists i int :: 0 <= i && i < #i && sid(caps[i]) == k) ==> old(has(dom(c.caps), k)) && vals(c.caps)[k] == old(vals(c.caps)[k]))
-//@        && (forall k int :: old(has(dom(c.caps), k)) ==> has(dom(c.caps), k))
+//@     invariant [C19] 0 <= #i && #i <= len(caps)
+//@     invariant [C19] #i == 0 ==> dom(c.caps) === old(dom(c.caps)) && vals(c.caps) === old(vals(c.caps))
+//@     invariant [C19] #i == 1 && minusName(caps[0]) ==> dom(c.caps) === setadd(old(dom(c.caps)), caps[0][1:]) && vals(c.caps) === upd(old(vals(c.caps)), caps[0][1:], false)
+//@     invariant [C19] #i == 1 && !minusName(caps[0]) ==> dom(c.caps) === setadd(old(dom(c.caps)), caps[0]) && vals(c.caps) === upd(old(vals(c.caps)), caps[0], true)
+//@     invariant [C19] plainNames(caps) ==> (forall k int :: has(dom(c.caps), k) <==> old(has(dom(c.caps), k)) || has(sidsetn(caps, #i), k))
+//@        && (forall k int :: vals(c.caps)[k] == (has(sidsetn(caps, #i), k) ? true : old(vals(c.caps)[k])))
 //@ end
 
 //@ func (*capSet).Has
@@ -975,6 +999,7 @@ package client
 //@   safety C02
 //@   requires capOK(c)
 //@   modifies $held, $tr
+//@   maintains [C19] noSends($tr, old($trlen), $trlen)
 //@   ensures $held === old($held)
 //@   ensures [C19] result == c.caps[cap]
 //@ end
@@ -984,6 +1009,7 @@ package client
 //@   safety C02
 //@   requires capOK(c)
 //@   modifies $held, $tr
+//@   maintains [C19] noSends($tr, old($trlen), $trlen)
 //@   ensures $held === old($held)
 //@   ensures [C19] result == len(c.caps)
 //@ end
@@ -1188,17 +1214,29 @@ package client
 // ---------------------------------------------------------------------------
 // C19: capability negotiation
 
-//@ pred plainNames(s []string) := forall i int :: 0 <= i && i < len(s) ==> !(len(s[i]) >= 1 && s[i][0] == '-')
+//@ pred minusName(s string) := len(s) >= 1 && s[0] == '-'
+//@ pred plainNames(s []string) := forall i int :: 0 <= i && i < len(s) ==> !minusName(s[i])
 //@ pred inList(k int, s []string) := exists i int :: 0 <= i && i < len(s) && sid(s[i]) == k
 // what the client wants: the built-in defaults, sasl when SASL is configured, and the configured list
-//@ pred wanted(conn *Conn, k int) := inList(k, defaultCaps) || (conn.cfg.Sasl != nil && k == sid("sasl")) || inList(k, conn.cfg.Capabilites)
+//@ pred wanted(conn *Conn, k int) := has(sidset(defaultCaps), k) || (conn.cfg.Sasl != nil && k == sid("sasl")) || has(sidset(conn.cfg.Capabilites), k)
 //@ pred sendsExactly(tr trace, at int, ch ref, line string) := tr[at] == ev("send", ch, cutnl(line))
+// the capabilities names go out on lines from..to-1, each "CAP <sub> :" followed by a run of consecutive names joined by single spaces
+//@ pred capLines(tr trace, from int, to int, ch ref, sub string, names []string, res []string, cut seq) :=
+//@     len(cut) == len(res) + 1 && cut[0] == 0 && cut[len(res)] == len(names) && to == from + len(res)
+//@     && (forall k int :: 0 <= k && k < len(res) ==> cut[k] < cut[k+1] && cut[k+1] <= len(names) && res[k] == joinsp(names, cut[k], cut[k+1], " ")
+//@            && tr[from+k] == ev("send", ch, cutnl("CAP " + sub + " :" + res[k])))
+// advertised by the server so far: enabled in conn.supportedCaps
+//@ pred advertised(conn *Conn, k int) := has(dom(conn.supportedCaps.caps), k) && vals(conn.supportedCaps.caps)[k]
+//@ pred capsOK(conn *Conn) := connOK(conn) && capOK(conn.supportedCaps) && capOK(conn.currCaps) && conn.supportedCaps != conn.currCaps && conn.supportedCaps.caps != conn.currCaps.caps
+//@     && allocated(conn.supportedCaps) && allocated(conn.currCaps) && allocated(conn.supportedCaps.caps) && allocated(conn.currCaps.caps)
+//@     && plainNames(defaultCaps) && plainNames(conn.cfg.Capabilites) && allocated(defaultCaps) && allocated(conn.cfg.Capabilites)
 
 //@ func (*capSet).Intersect
 //@   property C19
 //@   safety C02
 //@   requires capOK(c) && capOK(other) && c != other
 //@   modifies entries(c.caps), $held, $tr
+//@   maintains [C19] noSends($tr, old($trlen), $trlen)
 //@   ensures $held === old($held) && c.caps == old(c.caps)
 //@   ensures forall k int :: has(dom(c.caps), k) <==> (old(has(dom(c.caps), k)) && has(dom(other.caps), k) && vals(other.caps)[k])
 //@   ensures forall k int :: has(dom(c.caps), k) ==> vals(c.caps)[k] == old(vals(c.caps)[k])
@@ -1214,12 +1252,14 @@ package client
 //@   safety C02
 //@   requires capOK(c)
 //@   modifies $held, $tr, elems(result)
+//@   maintains [C19] noSends($tr, old($trlen), $trlen)
 //@   ensures $held === old($held)
-//@   ensures forall k int :: has(dom(c.caps), k) <==> inList(k, result)
+// exactly the names in the set (disabled ones included), each once
+//@   ensures sidset(result) === dom(c.caps) && fresh(result)
 //@   loop 0:
 //@     invariant held(c.mu) == 2 && $held === upd(old($held), c.mu, 2) && c.caps != nil
-//@     invariant forall k int :: (has(dom(c.caps), k) && has(visited(), k)) <==> inList(k, capSlice)
-//@     invariant len(capSlice) == 0 || fresh(capSlice)
+//@     invariant forall k int :: has(sidset(capSlice), k) <==> (has(dom(c.caps), k) && has(visited(), k))
+//@     invariant fresh(capSlice)
 //@ end
 
 //@ func capabilitySet
@@ -1232,12 +1272,68 @@ package client
 //@ func (*Conn).getRequestCapabilities
 //@   property C19
 //@   safety C02
-//@   requires connOK(conn) && plainNames(defaultCaps) && plainNames(conn.cfg.Capabilites)
-//@   modifies $held, $tr, capSet.caps, entries(result.caps)
+//@   requires connOK(conn) && plainNames(defaultCaps) && plainNames(conn.cfg.Capabilites) && allocated(defaultCaps) && allocated(conn.cfg.Capabilites)
+//@   modifies $held, $tr, result.caps, entries(result.caps)
+//@   maintains [C19] noSends($tr, old($trlen), $trlen)
 //@   ensures $held === old($held)
-//@   ensures capOK(result) && fresh(result)
+//@   ensures capOK(result) && fresh(result) && fresh(result.caps)
+//@   callpre [C19] client.(*capSet).Add 1 plainNames(arg1)
+//@   callpre [C19] client.(*capSet).Add 2 plainNames(arg1)
+//@   callpre [C19] client.(*capSet).Add 3 plainNames(arg1)
 //@   ensures forall k int :: has(dom(result.caps), k) <==> wanted(conn, k)
 //@   ensures forall k int :: has(dom(result.caps), k) ==> vals(result.caps)[k]
+//@ end
+
+// negotiateCapabilities: the server's list is added to what it has advertised; the request is
+// exactly wanted /\ advertised (sorted, split over lines by Cap), or CAP END when that is empty.
+//@ func (*Conn).negotiateCapabilities
+//@   property C19
+//@   safety C02
+//@   requires capsOK(conn)
+//@   modifies $held, $tr, capSet.caps, mapsof("map[string]bool")
+//@   ensures $held === old($held) && conn.supportedCaps == old(conn.supportedCaps) && conn.supportedCaps.caps == old(conn.supportedCaps.caps) && conn.currCaps.caps == old(conn.currCaps.caps)
+//@   ensures [C19] dom(conn.currCaps.caps) === old(dom(conn.currCaps.caps)) && vals(conn.currCaps.caps) === old(vals(conn.currCaps.caps))
+//@   ensures [C19] old(plainNames(supportedCaps)) ==> (forall k int :: advertised(conn, k) <==> old(advertised(conn, k)) || old(has(sidset(supportedCaps), k)))
+//@   bind L []string := call client.(*capSet).Slice 1
+//@   bind res []string := ghost client.(*Conn).Cap 1 res
+//@   bind cut seq := ghost client.(*Conn).Cap 1 cut
+// p: the trace position where the sending starts; before it only the sets' locks are taken
+//@   bind p1 int := before client.(*Conn).Cap 1 $trlen
+//@   bind p2 int := before client.(*Conn).Cap 2 $trlen
+//@   bind n int := call client.(*capSet).Size 1
+// n is the size of wanted /\ advertised
+//@   ensures [C19] (n > 0 <==> (exists k int :: wanted(conn, k) && advertised(conn, k))) && n >= 0
+//@   ensures [C19] n == 0 ==> old($trlen) <= p2 && noSends($tr, old($trlen), p2) && $trlen == p2 + 1 && sendsExactly($tr, p2, conn.out, "CAP " + "END")
+//@   ensures [C19] n > 0 ==> (forall k int :: has(sidset(L), k) <==> wanted(conn, k) && advertised(conn, k))
+//@        && old($trlen) <= p1 && noSends($tr, old($trlen), p1) && capLines($tr, p1, $trlen, conn.out, "REQ", L, res, cut)
+//@ end
+
+// handleCapAck: every acknowledged name is recorded in conn.currCaps in order (Add of one name:
+// the latest word wins); SASL starts only when it is configured and "sasl" was acknowledged, and
+// then an AUTHENTICATE <mechanism> goes out instead of CAP END; otherwise exactly one CAP END, last.
+//@ pred authOnly(tr trace, from int, to int, ch ref) := forall k int :: from <= k && k < to && tr[k].kind == kindof("send") ==> tr[k].obj == ch && verbPrefix(tr[k].str, "AUTHENTICATE")
+//@ func (*Conn).handleCapAck
+//@   property C19
+//@   safety C02
+//@   requires capsOK(conn) && allocated(caps)
+//@   modifies $held, $tr, $log, mapsof("map[string]bool"), Conn.saslRemainingData
+//@   ensures $held === old($held) && conn.currCaps == old(conn.currCaps) && conn.currCaps.caps == old(conn.currCaps.caps)
+//@   ensures [C19] dom(conn.supportedCaps.caps) === old(dom(conn.supportedCaps.caps)) && vals(conn.supportedCaps.caps) === old(vals(conn.supportedCaps.caps))
+//@   ensures [C19] len(caps) == 1 && minusName(caps[0]) ==> dom(conn.currCaps.caps) === setadd(old(dom(conn.currCaps.caps)), caps[0][1:]) && vals(conn.currCaps.caps) === upd(old(vals(conn.currCaps.caps)), caps[0][1:], false)
+//@   ensures [C19] len(caps) == 1 && !minusName(caps[0]) ==> dom(conn.currCaps.caps) === setadd(old(dom(conn.currCaps.caps)), caps[0]) && vals(conn.currCaps.caps) === upd(old(vals(conn.currCaps.caps)), caps[0], true)
+//@   ensures [C19] old($trlen) < $trlen
+//@   ensures [C19] (noSends($tr, old($trlen), $trlen - 1) && sendsExactly($tr, $trlen - 1, conn.out, "CAP " + "END"))
+//@        || (authOnly($tr, old($trlen), $trlen, conn.out) && conn.cfg.Sasl != nil && has(sidset(caps), "sasl") && (exists k int :: old($trlen) <= k && k < $trlen && $tr[k].kind == kindof("send")))
+//@   ensures [C19] (conn.cfg.Sasl == nil || !has(sidset(caps), "sasl")) ==> noSends($tr, old($trlen), $trlen - 1) && sendsExactly($tr, $trlen - 1, conn.out, "CAP " + "END")
+//@   loop 0:
+//@     invariant capsOK(conn) && $held === old($held) && conn.currCaps == old(conn.currCaps) && conn.currCaps.caps == old(conn.currCaps.caps) && conn.cfg == old(conn.cfg) && conn.cfg.Sasl == old(conn.cfg.Sasl) && conn.out == old(conn.out)
+//@     invariant [C19] 0 <= #i && #i <= len(caps) && old($trlen) <= $trlen
+//@     invariant [C19] dom(conn.supportedCaps.caps) === old(dom(conn.supportedCaps.caps)) && vals(conn.supportedCaps.caps) === old(vals(conn.supportedCaps.caps))
+//@     invariant [C19] #i == 0 ==> dom(conn.currCaps.caps) === old(dom(conn.currCaps.caps)) && vals(conn.currCaps.caps) === old(vals(conn.currCaps.caps))
+//@     invariant [C19] #i == 1 && minusName(caps[0]) ==> dom(conn.currCaps.caps) === setadd(old(dom(conn.currCaps.caps)), caps[0][1:]) && vals(conn.currCaps.caps) === upd(old(vals(conn.currCaps.caps)), caps[0][1:], false)
+//@     invariant [C19] #i == 1 && !minusName(caps[0]) ==> dom(conn.currCaps.caps) === setadd(old(dom(conn.currCaps.caps)), caps[0]) && vals(conn.currCaps.caps) === upd(old(vals(conn.currCaps.caps)), caps[0], true)
+//@     invariant [C19] !gotSasl ==> noSends($tr, old($trlen), $trlen)
+//@     invariant [C19] gotSasl ==> authOnly($tr, old($trlen), $trlen, conn.out) && conn.cfg.Sasl != nil && has(sidsetn(caps, #i), "sasl") && (exists k int :: old($trlen) <= k && k < $trlen && $tr[k].kind == kindof("send"))
 //@ end
 
 // After a NAK, after SASL success / failure / unsupported mechanism: CAP END, exactly once.
@@ -1268,6 +1364,54 @@ package client
 //@   modifies $tr, $log
 //@   ensures $trlen == old($trlen) + 1 && sendsExactly($tr, old($trlen), conn.out, "CAP " + "END")
 //@ end
+
+// h_CAP: LS -> negotiateCapabilities, ACK -> handleCapAck, NAK -> CAP END; anything else sends nothing.
+//@ func (*Conn).h_CAP
+//@   property C19
+//@   requires capsOK(conn) && line != nil && len(line.Args) >= 2
+//@   modifies $held, $tr, $log, mapsof("map[string]bool"), capSet.caps, Conn.saslRemainingData
+//@   ensures $held === old($held)
+//@   ensures [C19] line.Args[1] == "NAK" ==> $trlen == old($trlen) + 1 && sendsExactly($tr, old($trlen), conn.out, "CAP " + "END")
+//@   ensures [C19] line.Args[1] == "LS" || line.Args[1] == "ACK" ==> old($trlen) < $trlen
+//@   ensures [C19] line.Args[1] != "LS" && line.Args[1] != "ACK" && line.Args[1] != "NAK" ==> $trlen == old($trlen)
+//@ end
+
+// h_AUTHENTICATE: nothing without SASL configured; pending initial data goes out base64-encoded
+// ("+" when empty) and is cleared; otherwise the mechanism's answer to the decoded challenge, base64-encoded.
+//@ func (*Conn).h_AUTHENTICATE
+//@   property C19
+//@   requires connOK(conn) && line != nil && (conn.cfg.Sasl != nil && conn.saslRemainingData == nil ==> len(line.Args) >= 1)
+//@   modifies $tr, $log, Conn.saslRemainingData
+//@   ensures [C19] conn.cfg.Sasl == nil ==> $trlen == old($trlen) && conn.saslRemainingData === old(conn.saslRemainingData)
+//@   ensures [C19] conn.cfg.Sasl != nil && old(conn.saslRemainingData) != nil ==> conn.saslRemainingData == nil && $trlen == old($trlen) + 1
+//@        && (old(len(conn.saslRemainingData)) > 0 ==> sendsExactly($tr, old($trlen), conn.out, "AUTHENTICATE " + old(b64(conn.saslRemainingData))))
+//@        && (old(len(conn.saslRemainingData)) == 0 ==> sendsExactly($tr, old($trlen), conn.out, "AUTHENTICATE " + "+"))
+//@   ensures [C19] $trlen == old($trlen) || ($trlen == old($trlen) + 1 && $tr[old($trlen)].kind == kindof("send") && $tr[old($trlen)].obj == conn.out && verbPrefix($tr[old($trlen)].str, "AUTHENTICATE"))
+//@ end
+
+// what the client reports: the sets' current values
+//@ func (*Conn).HasCapability
+//@   property C19
+//@   requires conn != nil && capOK(conn.currCaps)
+//@   modifies $held, $tr
+//@   ensures $held === old($held)
+//@   ensures [C19] result == conn.currCaps.caps[cap]
+//@ end
+//@ func (*Conn).SupportsCapability
+//@   property C19
+//@   requires conn != nil && capOK(conn.supportedCaps)
+//@   modifies $held, $tr
+//@   ensures $held === old($held)
+//@   ensures [C19] result == conn.supportedCaps.caps[cap]
+//@ end
+// the negotiation state is touched by nobody else
+//@ closure [C19] callers (*Conn).negotiateCapabilities in (*Conn).h_CAP
+//@ closure [C19] callers (*Conn).handleCapAck in (*Conn).h_CAP
+//@ closure [C19] callers (*Conn).handleCapNak in (*Conn).h_CAP
+//@ closure [C19] field_write Conn.saslRemainingData in (*Conn).handleCapAck, (*Conn).h_AUTHENTICATE, Client
+//@ closure [C19] field_access Conn.currCaps in (*Conn).handleCapAck, (*Conn).HasCapability, Client
+//@ closure [C19] field_access Conn.supportedCaps in (*Conn).negotiateCapabilities, (*Conn).SupportsCapability, Client
+//@ closure [C19] callers (*Conn).Authenticate in (*Conn).handleCapAck, (*Conn).h_AUTHENTICATE
 
 //@ func (*Conn).Authenticate
 //@   property C08
